@@ -639,3 +639,23 @@ def mutate_targeted(rng, doc):
         emit("defaults.unused-invalid", lambda d, s=sect, k=key, v=val: d.__setitem__("defaults", {s: {k: v}}))
     rng.shuffle(out)
     return out
+
+
+def sawtooth_family(rng):
+    """consecutive exponential epochs with equal growth rate and a size jump between
+    them (zigzag / sawtooth histories), optionally with a second deme"""
+    k = rng.randint(2, 5)
+    span = rng.choice([10, 25.0, 100])
+    lo, hi = rng.choice([(100, 200), (1000.0, 250.0), (50, 800)])
+    epochs = [dict(start_size=hi, end_time=k * span)]
+    for i in range(k):
+        a, b = (lo, hi) if rng.random() < 0.8 else (hi, lo)
+        epochs.append(dict(start_size=a, end_size=b, end_time=(k - 1 - i) * span))
+    demes = [dict(name="A", epochs=epochs)]
+    migs = []
+    if rng.random() < 0.5:
+        demes.append(dict(name="B", ancestors=["A"], start_time=(k - 0.5) * span,
+                          epochs=[dict(start_size=300, end_size=600, end_time=span),
+                                  dict(start_size=300, end_size=600, end_time=0)]))
+        migs.append(dict(demes=["A", "B"], rate=1e-4))
+    return dict(time_units="generations", demes=demes, migrations=migs)
